@@ -7,8 +7,9 @@
      os2/max_context.rs     compute_max_context_value
      write-fonts loca.rs    LocaFormat::new (the rule head.indexToLocFormat follows)
    Definitions only; proofs are in Proofs.v.  Integers are Z / N (Rust's fixed widths are written
-   in where the property is about them: clamp_i16, u16 sums), f64 is Q, f32 is modelled by
-   rounding Q to 24 significant bits. *)
+   in where the property is about them: clamp_i16, the u16 narrowing of the composite totals),
+   f64 is Q for coordinates and is modelled by rounding Q to 53 significant bits where the
+   rounding matters (xAvgCharWidth). *)
 From Coq Require Import List NArith ZArith QArith Qround Qminmax Bool.
 Import ListNotations.
 
@@ -176,32 +177,27 @@ Fixpoint mx_fold (s : mxstate) (id : N) (gl : list glyph) : mxstate :=
   | g :: t => mx_fold (mx_update s id g) (N.succ id) t
   end.
 
-(* u16 `+`: exact (the intended arithmetic), release build (wraps), debug build (panics) *)
-Inductive mode := Ideal | Release | Debug.
-Definition add16 (m : mode) (a b : N) : option N :=
-  match m with
-  | Ideal => Some (a + b)
-  | Release => Some ((a + b) mod 65536)
-  | Debug => if a + b <? 65536 then Some (a + b) else None
-  end.
+(* The composite totals are summed in u32 (exact: at most 65535 components of at most 65535
+   each) and then narrowed with u16::try_from; a total that does not fit is Error::OutOfBounds.
+   [Ideal] is the same computation without the narrowing: the intended arithmetic. *)
+Inductive mode := Ideal | Checked.
+
+Definition lim_step (a e : limits) : limits :=
+  mkLim (l_pts a + l_pts e) (l_ctr a + l_ctr e) (N.max (l_depth a) (l_depth e + 1)).
+Definition sum_limits (ls : list limits) : limits := fold_left lim_step ls lim_zero.
+
+Definition fits16 (l : limits) : bool :=
+  (l_pts l <? 65536) && (l_ctr l <? 65536) && (l_depth l <? 65536).
+Definition finish (m : mode) (l : limits) : option limits :=
+  match m with Ideal => Some l | Checked => if fits16 l then Some l else None end.
 
 Inductive outcome (A : Type) :=
 | LOk (a : A)
-| LOverflow          (* 'attempt to add with overflow' *)
+| LTooBig            (* Err(Error::OutOfBounds): the build fails with a diagnostic *)
 | LStuck             (* assert!(pending.len() < size_before) *)
 | LMissing           (* .unwrap() on a glyph id that is not in the map *)
 | LFuel.             (* model artefact; shown unreachable *)
-Arguments LOk {A}. Arguments LOverflow {A}. Arguments LStuck {A}. Arguments LMissing {A}. Arguments LFuel {A}.
-
-Definition fold_step (m : mode) (acc : option limits) (e : limits) : option limits :=
-  match acc with
-  | None => None
-  | Some a =>
-    match add16 m (l_pts a) (l_pts e), add16 m (l_ctr a) (l_ctr e), add16 m (l_depth e) 1 with
-    | Some p, Some c, Some d => Some (mkLim p c (N.max (l_depth a) d))
-    | _, _, _ => None
-    end
-  end.
+Arguments LOk {A}. Arguments LTooBig {A}. Arguments LStuck {A}. Arguments LMissing {A}. Arguments LFuel {A}.
 
 Inductive ready := RMissing | RNotYet | RReady (ls : list limits).
 
@@ -221,7 +217,8 @@ Fixpoint child_limits (info : imap) (comps : list N) : ready :=
     end
   end.
 
-(* one `pending.retain(..)` *)
+(* one `pending.retain(..)`.  The code finishes the pass before it returns the error; the
+   model stops at the first total that does not fit — the outcome is the same error. *)
 Fixpoint pass (m : mode) (info : imap) (pending : list N) (omax : limits)
   : outcome (imap * list N * limits) :=
   match pending with
@@ -241,8 +238,8 @@ Fixpoint pass (m : mode) (info : imap) (pending : list N) (omax : limits)
           | e => e
           end
         | RReady ls =>
-          match fold_left (fold_step m) ls (Some lim_zero) with
-          | None => LOverflow
+          match finish m (sum_limits ls) with
+          | None => LTooBig
           | Some limit => pass m (upd info gid (mkGI (Some limit) (Some comps))) rest (lim_max omax limit)
           end
         end
@@ -260,7 +257,7 @@ Fixpoint loop (m : mode) (fuel : nat) (info : imap) (pending : list N) (omax : l
       match pass m info pending omax with
       | LOk (info', kept, omax') =>
         if (length kept <? length pending)%nat then loop m f info' kept omax' else LStuck
-      | LOverflow => LOverflow
+      | LTooBig => LTooBig
       | LStuck => LStuck
       | LMissing => LMissing
       | LFuel => LFuel
@@ -281,7 +278,7 @@ Definition limits_run (m : mode) (gl : list glyph) (pending : list N) : outcome 
   let s := mx_fold mx_init 0 gl in
   match update_composite_limits m (mx_info s) pending with
   | LOk c => LOk (mkLimitsOut (mx_pts s) (mx_ctr s) (mx_elems s) (l_pts c) (l_ctr c) (l_depth c) (mx_bbox s))
-  | LOverflow => LOverflow
+  | LTooBig => LTooBig
   | LStuck => LStuck
   | LMissing => LMissing
   | LFuel => LFuel
@@ -307,18 +304,14 @@ Definition limits_out_eqb (a b : limits_out) : bool :=
 Definition outcome_eqb (a b : outcome limits_out) : bool :=
   match a, b with
   | LOk x, LOk y => limits_out_eqb x y
-  | LOverflow, LOverflow | LStuck, LStuck | LMissing, LMissing | LFuel, LFuel => true
+  | LTooBig, LTooBig | LStuck, LStuck | LMissing, LMissing | LFuel, LFuel => true
   | _, _ => false
   end.
 
-Definition outcome_is_overflow (a : outcome limits_out) : bool :=
-  match a with LOverflow => true | _ => false end.
+Definition outcome_is_error (a : outcome limits_out) : bool :=
+  match a with LTooBig => true | _ => false end.
 
 (* The recursive definition the fixed point is meant to compute. *)
-Definition lim_step (a e : limits) : limits :=
-  mkLim (l_pts a + l_pts e) (l_ctr a + l_ctr e) (N.max (l_depth a) (l_depth e + 1)).
-Definition sum_limits (ls : list limits) : limits := fold_left lim_step ls lim_zero.
-
 Definition glyph_at (gl : list glyph) (g : N) : option glyph := nth_error gl (N.to_nat g).
 
 Inductive has_limits (gl : list glyph) : N -> limits -> Prop :=
@@ -480,7 +473,8 @@ Definition xavg_parts_spec (advs : list Z) : Z * Z :=
 Definition xavg_exact (count total : Z) : Z :=
   if count =? 0 then 0 else (2 * total + count) / (2 * count).
 
-(* binary32: round a positive rational to 24 significant bits, ties to even *)
+(* binary floating point: round a positive rational to [prec] significant bits, ties to even
+   (prec = 53: f64, the type the mean is computed in; prec = 24: f32, what it used to be) *)
 Open Scope Q_scope.
 Definition pow2 (e : Z) : Q := if (0 <=? e)%Z then inject_Z (2 ^ e) else 1 # (Z.to_pos (2 ^ (- e))).
 Definition round_half_even (q : Q) : Z :=
@@ -493,16 +487,19 @@ Definition round_half_even (q : Q) : Z :=
 Definition qlog2 (q : Q) : Z :=      (* floor(log2 q) for q > 0 *)
   let k := (Z.log2 (Qnum q) - Z.log2 (Zpos (Qden q)))%Z in
   if Qle_bool (pow2 k) q then (if Qle_bool (pow2 (k + 1)) q then k + 1 else k)%Z else (k - 1)%Z.
-Definition f32_round (q : Q) : Q :=
+Definition fp_round (prec : Z) (q : Q) : Q :=
   if Qle_bool q 0 then 0 else
-  let e := (qlog2 q - 23)%Z in
+  let e := (qlog2 q - (prec - 1))%Z in
   inject_Z (round_half_even (q / pow2 e)) * pow2 e.
 Definition sat_i16 (z : Z) : Z := clamp_i16 z.
-(* (total as f32 / count as f32).ot_round() with ot_round = (x + 0.5).floor() as i16; 0/0 = NaN -> 0 *)
-Definition xavg_f32 (count total : Z) : Z :=
+(* (total as fXX / count as fXX).ot_round() with ot_round = (x + 0.5).floor() as i16; 0/0 = NaN -> 0;
+   [rnd] is the rounding of the float type *)
+Definition xavg_fp (rnd : Q -> Q) (count total : Z) : Z :=
   if (count =? 0)%Z then 0%Z else
-  let x := f32_round (f32_round (inject_Z total) / f32_round (inject_Z count)) in
-  sat_i16 (Qfloor (f32_round (x + (1 # 2)))).
+  let x := rnd (rnd (inject_Z total) / rnd (inject_Z count)) in
+  sat_i16 (Qfloor (rnd (x + (1 # 2)))).
+Definition xavg_f64 : Z -> Z -> Z := xavg_fp (fp_round 53).
+Definition xavg_f32 : Z -> Z -> Z := xavg_fp (fp_round 24).   (* before the repair *)
 
 (* apply_min_max_char_index *)
 Open Scope N_scope.
@@ -737,7 +734,7 @@ Definition simple_fits_b (gl : list glyph) : bool :=
 Definition check_limits (f : dfont) : bool :=
   let gl := font_glyphs f in
   let '(p, c, cp, cc, el, d) := f_maxp f in
-  match limits_run Ideal gl (composite_ids 0 gl) with
+  match limits_run Checked gl (composite_ids 0 gl) with
   | LOk o =>
     simple_fits_b gl &&
     (lo_pts o =? p)%N && (lo_ctr o =? c)%N && (lo_cpts o =? cp)%N && (lo_cctr o =? cc)%N
@@ -765,7 +762,7 @@ Definition check_os2 (f : dfont) : bool :=
   let '(avg, first, last) := f_os2 f in
   let long := firstn (N.to_nat (f_numh f)) (map (fun g => (dg_adv g, dg_lsb g)) (f_glyphs f)) in
   let '(count, total) := xavg_parts long (Z.of_nat (length (f_glyphs f))) in
-  (xavg_f32 count total =? avg)
+  (xavg_f64 count total =? avg)
   && (let '(mn, mx) := min_max_char (f_cps f) in (mn =? first)%N && (mx =? last)%N)
   && (let '(a, b, c, d) := unicode_range_words (f_cps f) in
       let '(a', b', c', d') := f_ur f in (a =? a')%N && (b =? b')%N && (c =? c')%N && (d =? d')%N)
